@@ -2634,16 +2634,49 @@ func init() {
 }
 
 func r017(c *Ctx, r *R) {
+	isSink := func(h *ssa.Function) bool {
+		return h != nil && nameMatches(h.String(), "raft.Consensus).commit", "raft.Consensus).redirectToLeader")
+	}
+	// h forwards its parameter k as a method name to commit/redirectToLeader
+	// (directly or through one more helper)
+	var forwards func(h *ssa.Function, k int, depth int) bool
+	forwards = func(h *ssa.Function, k int, depth int) bool {
+		if h == nil || len(h.Blocks) == 0 || depth > 2 {
+			return false
+		}
+		for _, ci := range callsIn(h) {
+			cal := ci.Common().StaticCallee()
+			if cal == nil {
+				continue
+			}
+			for i, a := range ci.Common().Args {
+				if paramIndexLocal(h, a) != k {
+					continue
+				}
+				if isSink(cal) || forwards(cal, i, depth+1) {
+					return true
+				}
+			}
+		}
+		return false
+	}
 	n := 0
 	for _, name := range []string{"LogPin", "LogUnpin", "AddPeer", "RmPeer"} {
 		f := c.fn(r, "consensus/raft", "Consensus."+name)
 		if f == nil {
 			continue
 		}
-		for _, ci := range findCalls(f, false, "raft.Consensus).commit", "raft.Consensus).redirectToLeader") {
-			for _, a := range ci.Common().Args {
+		for _, ci := range callsIn(f) {
+			cal := ci.Common().StaticCallee()
+			if cal == nil || cal.Pkg != f.Pkg {
+				continue
+			}
+			for i, a := range ci.Common().Args {
 				s, isS := constString(a)
 				if !isS {
+					continue
+				}
+				if !isSink(cal) && !forwards(cal, i, 0) {
 					continue
 				}
 				n++
@@ -2827,20 +2860,22 @@ func r118(c *Ctx, r *R) {
 		return
 	}
 	listed := map[int64]bool{}
-	instrs(f, func(i ssa.Instruction) {
-		st, ok := i.(*ssa.Store)
-		if !ok {
-			return
-		}
-		if _, isIA := st.Addr.(*ssa.IndexAddr); !isIA {
-			return
-		}
-		if k, isK := st.Val.(*ssa.Const); isK && types.Identical(k.Type(), pt) && k.Value != nil {
-			if v, ok := constant.Int64Val(k.Value); ok {
-				listed[v] = true
+	for g := range ssaClosure(f) { // the table may sit in a helper that renders the filter
+		instrs(g, func(i ssa.Instruction) {
+			st, ok := i.(*ssa.Store)
+			if !ok {
+				return
 			}
-		}
-	})
+			if _, isIA := st.Addr.(*ssa.IndexAddr); !isIA {
+				return
+			}
+			if k, isK := st.Val.(*ssa.Const); isK && types.Identical(k.Type(), pt) && k.Value != nil {
+				if v, ok := constant.Int64Val(k.Value); ok {
+					listed[v] = true
+				}
+			}
+		})
+	}
 	for _, k := range declaredConsts(pt) {
 		if k.Name() == "AllType" || k.Name() == "BadType" {
 			continue
